@@ -1703,8 +1703,14 @@ class PyCdlib:
             # dir_record.add_child() may throw a PyCdlibInvalidInput if it was
             # given a duplicate child.  However, we allow duplicate children if
             # and only the last child is the same; this represents a very large
-            # file.
-            if not child.is_dir():
+            # file.  That is only the case when the existing record describes
+            # a completely filled extent; anything else is a genuine duplicate.
+            existing = None
+            for rec in child.parent.children:
+                if rec.file_ident == child.file_ident:
+                    existing = rec
+            if not child.is_dir() and existing is not None and \
+               not existing.is_dir() and existing.get_data_length() == 0xfffff800:
                 try_long_entry = True
             else:
                 raise
